@@ -7,6 +7,8 @@ import (
 	"go/token"
 	"go/types"
 	"os"
+	"runtime"
+	"runtime/debug"
 	"sort"
 	"strings"
 
@@ -88,6 +90,9 @@ func (e *Engine) verifyCase(fn *ssa.Function, c *Contract, caseName string, res 
 		if r := recover(); r != nil {
 			if er, ok := r.(error); ok {
 				vc.reach = "contract error: " + er.Error()
+				if _, isRT := r.(runtime.Error); isRT && os.Getenv("GOVC_DEBUG") != "" {
+					debug.PrintStack()
+				}
 			} else {
 				panic(r)
 			}
@@ -441,9 +446,31 @@ func (e *Engine) applyContractEnv(st *State, fr *Frame, c *Contract, env map[str
 	}
 	bindNamed()
 	actx := &evalCtx{e: e, st: st, old: pre, env: renv, pkg: pkg}
+	// ghost parameters of the callee without initialiser are universally quantified in its proof: the caller may
+	// use the postconditions for every value (bound variables per leaf)
+	var bounds []*Term
+	for _, cl := range c.Clauses {
+		if cl.Kind == "ghost" && cl.Case == "" && cl.Expr == nil {
+			T := e.resolveType(cl.Text, pkg)
+			if T == nil {
+				panic(fmt.Errorf("%s:%d: unknown type %s", cl.File, cl.Line, cl.Text))
+			}
+			ss := leafSorts(T)
+			L := make([]*Term, len(ss))
+			for i, srt := range ss {
+				L[i] = Bound(cl.Name, srt)
+				bounds = append(bounds, L[i])
+			}
+			renv[cl.Name] = Val{T, L}
+		}
+	}
 	for _, cl := range c.Clauses {
 		if cl.Kind == "ensures" && cl.Case == "" {
-			st.assume(e.evalBool(actx, cl.Expr))
+			t := e.evalBool(actx, cl.Expr)
+			if len(bounds) > 0 && t.hasBound {
+				t = Forall(bounds, t)
+			}
+			st.assume(t)
 		}
 	}
 	e.stats["contract:"+calleeName]++
